@@ -153,6 +153,71 @@ def run(prop, tier, seed):
                            "property's invariants holding in every state")
 
 
+def run_c19(tier, seed):
+    """C19: the simulation is dropped at every point of driver sequences (idle, with pending scheduled actions,
+    after every kind of failure, with senders suspended on full mailboxes), on 1..16 threads, with delays at the
+    pool's protocol points; the drop must return and the accounting recorded by the harness must balance."""
+    prop = "C19"
+    chk = Check(prop, tier, seed)
+    rng = random.Random(seed)
+    thorough = tier == "thorough"
+    wd = os.path.join(OUT, f"{prop}_{tier}")
+    PROPS[prop] = dict(silent_sync=True, invariants=["TerminatedSticky"])
+    # 1. TLC on the instances whose behaviours are replayed (the Drop step itself is in SimCore_Trace: TDrop)
+    for bn in ("faults", "cancel"):
+        b = BENCHES[bn]
+        res = simcore.model_check(b, wd, workers=14, overrides=dict(MaxCmds=3), timeout=3000)
+        chk.add_tlc(f"MC_SimCore[{bn}]", res)
+        if not res.ok:
+            raise ToolError(f"SimCore instance {bn} violates {res.violation}")
+    # 2. every prefix: all behaviours of length 1..k, the simulation being dropped after the last command
+    threads = (1, 2, 4, 16) if thorough else (1, 4)
+    for bn, depths in (("faults", (1, 2, 3) if thorough else (1, 2)), ("cancel", (2, 3) if thorough else (2,))):
+        b = BENCHES[bn]
+        for dpt in depths:
+            beh, res = simcore.gen_behaviours(b, wd, overrides=dict(MaxCmds=dpt), workers=12, timeout=3000)
+            chk.add_tlc(f"behaviour generation [{bn}] depth {dpt}", res)
+            total = len(beh)
+            cap = 6000 if thorough else 500
+            if total > cap:
+                rng.shuffle(beh)
+                beh = beh[:cap]
+            runs = simcore.make_runs(beh, threads=threads, tick_ns=(1,), rng=rng)
+            validate_runs(chk, prop, b, runs, f"drop-after-prefix depth {dpt} ({len(beh)}/{total})", wd, f"c19_{bn}_{dpt}")
+    # 3. suspended senders and queued model tasks at the time of a failure, with the delay sweep
+    b = BENCHES["flood4"]
+    runs, i = [], 0
+    sweep = ((0, 0), (27, 300), (28, 500), (10, 300), (11, 300), (20, 500), (33, 2000))
+    reps = 40 if thorough else 8
+    for dp, us in sweep:
+        for th in (2, 3, 4, 16) if thorough else (2, 4):
+            for _ in range(reps):
+                i += 1
+                runs.append(dict(id=i, threads=th, tick_ns=1, t0_secs=0, lags=[], capacity=1, delay_point=dp,
+                                 delay_us=us, cmds=[dict(c="process", kind="action", target=1, prog=2)]))
+    validate_runs(chk, prop, b, runs, "flood chain + failure, delay sweep", wd, "c19_flood4")
+    # 4. random prefixes of random lengths
+    n = 800 if thorough else 120
+    for bn in ("faults", "cancel", "chrono"):
+        b = BENCHES[bn]
+        runs = []
+        for i in range(n):
+            cmds = simcore.random_cmds(b, rng, rng.randint(1, 12), dict(sched=0.35, process=0.3, step=0.2, until=0.15))
+            runs.append(dict(id=i + 1, threads=rng.choice((1, 2, 4, 16)), tick_ns=1, t0_secs=0, lags=[], cmds=cmds))
+        validate_runs(chk, prop, b, runs, "random prefixes", wd, f"c19_rnd_{bn}")
+    chk.exhaustive = True
+    chk.assumptions = TRUSTED + [
+        "release is observed through drop-counting tokens placed by the harness in every model, message payload and "
+        "handler future, and through the process's thread count; memory that carries no token is not observed",
+        "a step time-out caused by an overrunning handler abandons that computation by design (excluded by the property)",
+    ]
+    return chk.finish(rule="the simulation (with its scheduler handle, addresses, event sources and key handles) is "
+                           "dropped after every prefix of the TLC-generated driver sequences, after seeded random "
+                           "prefixes and after a failure with senders suspended on full mailboxes, on 1-16 threads with a "
+                           "delay sweep over the pool hook points; the drop must return (watchdog) and the recorded "
+                           "accounting must satisfy TDrop of SimCore_Trace.tla")
+
+
 def replay(obj):
     """Re-executes the run stored in a replay file and validates it again; prints the outcome."""
     b = BENCHES[obj["bench"]]
